@@ -16,7 +16,21 @@ import (
 	"time"
 )
 
-const VerifDir = "/verif"
+// Locations (overridable so that a snapshot of /verif or a scratch copy of the repository can be checked
+// without touching /verif/.build): VERIF_DIR, VERIF_REPO, VERIF_BUILD.
+var (
+	VerifDir    = envOr("VERIF_DIR", "/verif")
+	RepoDir     = envOr("VERIF_REPO", "/repo")
+	BuildDir    = envOr("VERIF_BUILD", filepath.Join(VerifDir, ".build"))
+	EvidenceDir = envOr("VERIF_EVIDENCE", filepath.Join(VerifDir, "evidence"))
+)
+
+func envOr(k, d string) string {
+	if v := os.Getenv(k); v != "" {
+		return v
+	}
+	return d
+}
 
 type Violation struct {
 	Key    string      `json:"key"`
@@ -181,7 +195,11 @@ func (r *Report) HarnessError(msg string) {
 
 func (r *Report) Set(k string, v interface{}) { r.mu.Lock(); r.Extra[k] = v; r.mu.Unlock() }
 
-func (r *Report) Assume(s ...string) { r.mu.Lock(); r.Assumptions = append(r.Assumptions, s...); r.mu.Unlock() }
+func (r *Report) Assume(s ...string) {
+	r.mu.Lock()
+	r.Assumptions = append(r.Assumptions, s...)
+	r.mu.Unlock()
+}
 
 func (r *Report) Violations() int { r.mu.Lock(); defer r.mu.Unlock(); return len(r.viol) }
 
@@ -212,7 +230,7 @@ func (r *Report) Finish() int {
 		}
 		return 2
 	}
-	os.MkdirAll(filepath.Join(VerifDir, "evidence", "replays"), 0o755)
+	os.MkdirAll(filepath.Join(EvidenceDir, "replays"), 0o755)
 	keys := make([]string, 0, len(r.viol))
 	for k := range r.viol {
 		keys = append(keys, k)
@@ -221,7 +239,7 @@ func (r *Report) Finish() int {
 	var violList []interface{}
 	for _, k := range keys {
 		v := r.viol[k]
-		path := filepath.Join(VerifDir, "evidence", "replays", r.ID+"-"+sanitize(k)+".json")
+		path := filepath.Join(EvidenceDir, "replays", r.ID+"-"+sanitize(k)+".json")
 		b, _ := json.MarshalIndent(map[string]interface{}{"property": r.ID, "key": k, "case": v.Case,
 			"detail": v.Detail, "replay": v.Replay, "occurrences": r.violCount[k]}, "", " ")
 		os.WriteFile(path, b, 0o644)
@@ -267,7 +285,7 @@ func (r *Report) Finish() int {
 		ev["assumptions"] = []string{}
 	}
 	b, _ := json.MarshalIndent(ev, "", " ")
-	if err := os.WriteFile(filepath.Join(VerifDir, "evidence", r.ID+".json"), append(b, '\n'), 0o644); err != nil {
+	if err := os.WriteFile(filepath.Join(EvidenceDir, r.ID+".json"), append(b, '\n'), 0o644); err != nil {
 		fmt.Printf("HARNESS-ERROR property=%s cannot write evidence: %v\n", r.ID, err)
 		return 2
 	}
